@@ -202,7 +202,15 @@ def run_harness(binpath, seed, tier, only=None):
     while True:
         cmd = [binpath, "--seed", str(seed), "--tier", tier, "--from", str(start)]
         if only is not None: cmd += ["--only", str(only)]
-        p = subprocess.run(cmd, stdout=subprocess.PIPE, stderr=subprocess.PIPE, timeout=3000)
+        # a case that never returns (a loop that no longer terminates) must not stall the check: the harness process gets a
+        # time limit; what it printed so far is kept, the case it was in is recorded as a hang and the run resumes after it
+        limit = int(os.environ.get("VERIF_HARNESS_TIMEOUT", "900" if tier == "thorough" else "420"))
+        try:
+            p = subprocess.run(cmd, stdout=subprocess.PIPE, stderr=subprocess.PIPE, timeout=limit)
+        except subprocess.TimeoutExpired as ex:
+            class _P: pass
+            p = _P(); p.stdout = ex.stdout or b""; p.stderr = (ex.stderr or b"") + b"\n[harness killed after %d s: the case did not return]" % limit
+            p.returncode = -9
         pending = None
         out = p.stdout.decode("utf8", "replace")
         for line in out.split("\n"):
@@ -226,6 +234,11 @@ def run_harness(binpath, seed, tier, only=None):
         how = "signal %d" % -p.returncode if p.returncode < 0 else "exit %d" % p.returncode
         aborts.append((pending[0], pending[1], how + ": " + p.stderr.decode("utf8", "replace")[-600:]))
         if only is not None: break
+        # a handful of aborting / hanging cases is enough to report; resuming after each of hundreds would take hours
+        if len(aborts) >= int(os.environ.get("VERIF_MAX_ABORTS", "6")):
+            aborts.append((-1, "stopped resuming after %d aborted / hanging cases (cases after id %d were not run)" %
+                           (len(aborts), pending[0]), "limit"))
+            break
         start = pending[0] + 1
     return cases, aborts
 
